@@ -1,5 +1,395 @@
-"""Universal combinatorial family U (DESIGN §5)."""
+"""Universal combinatorial family U (DESIGN §5): every documented feature alone, in all compatible
+pairs (and triples in the thorough tier) on three base topologies, explored with a deviation bound."""
+import copy
+import itertools
+
+from .families import *
+
+# ------------------------------------------------------------------------------------------------
+# base topologies: class A arrives at node 1
+# ------------------------------------------------------------------------------------------------
 
 
-def family(tier):
-    return []
+def _base(topo, K, T, D):
+    if topo == "T1":
+        nodes = [node(c=1)]
+        route = None
+        arr = [ARR]
+        srv = [SRV2]
+    elif topo == "T2":
+        nodes = [node(c=1), node(c=1)]
+        route = matrix([[0.0, 1.0], [0.5, 0.0]])
+        arr = [ARR, None]
+        srv = [SRV2, [1.0, 0.5]]
+    else:
+        nodes = [node(c=1), node(c=1), node(c=1)]
+        route = matrix([[0.0, 0.5, 0.5], [0.0, 0.0, 0.0], [0.5, 0.0, 0.0]])
+        arr = [ARR, None, None]
+        srv = [SRV2, [1.0, 0.5], [1.0]]
+    c = cfg("U-%s" % topo, "U", nodes, {"A": klass(arr, srv, route=route)}, K=K, T=T, D=D)
+    c["_topo"] = topo
+    c["_kinds"] = {}
+    return c
+
+
+def _nn(c):
+    return len(c["nodes"])
+
+
+def _claim(c, kind, name):
+    """one atom per kind (server kind, capacity, routing, tracker, discipline, ...)"""
+    if kind in c["_kinds"]:
+        return False
+    c["_kinds"][kind] = name
+    return True
+
+
+def _add_B(c, prio=0, arr=None):
+    if "B" in c["classes"]:
+        return
+    A = c["classes"]["A"]
+    nn = _nn(c)
+    B = klass([arr or [1.0, 2.0]] + [None] * (nn - 1), [list(m) for m in A["srv"]], route=copy.deepcopy(A.get("route")), prio=prio)
+    for k in ("renege", "batch", "baulk"):
+        if k in A:
+            B[k] = [None] * nn
+    c["classes"]["B"] = B
+
+
+def _ordinary(n):
+    """finite c>0 ordinary node (pre-emption etc. make sense)"""
+    return isinstance(n["c"], int) and n["c"] > 0 and not n.get("ps")
+
+
+# ---- atoms: each returns True (applied) / False (incompatible) --------------------------------------
+
+def a_class2(c):
+    if not _claim(c, "classes", "class2"):
+        return False
+    _add_B(c)
+    return True
+
+
+def a_prio(c):
+    if not _claim(c, "classes", "prio"):
+        return False
+    _add_B(c, prio=1)
+    return True
+
+
+def _a_preempt(opt):
+    def f(c):
+        if not _claim(c, "classes", "preempt"):
+            return False
+        if not all(_ordinary(n) or isinstance(n["c"], dict) and "sched" in n["c"] for n in c["nodes"]):
+            return False
+        _add_B(c, prio=0)
+        c["classes"]["A"]["prio"] = 1
+        for n in c["nodes"]:
+            n["preempt"] = opt
+        return True
+    return f
+
+
+def a_baulk(c):
+    if not _claim(c, "baulk", "baulk"):
+        return False
+    nn = _nn(c)
+    for cl in c["classes"].values():
+        cl["baulk"] = [None] * nn
+    c["classes"]["A"]["baulk"] = [{"by_n": [0.0, 0.5, 1.0]}] + [None] * (nn - 1)
+    return True
+
+
+def a_renege(c):
+    if not _claim(c, "renege", "renege"):
+        return False
+    nn = _nn(c)
+    for cl in c["classes"].values():
+        cl["renege"] = [None] * nn
+    c["classes"]["A"]["renege"] = [PAT] * nn
+    return True
+
+
+def a_jockey(c):
+    if _nn(c) < 2 or not _claim(c, "renege", "jockey") or not _claim(c, "routing", "jockey"):
+        return False
+    nn = _nn(c)
+    for cl in c["classes"].values():
+        cl["renege"] = [None] * nn
+    c["classes"]["A"]["renege"] = [PAT] + [None] * (nn - 1)
+    rt = network(direct(2, jockey_to=2), *[leave() for _ in range(nn - 1)])
+    for cl in c["classes"].values():
+        cl["route"] = copy.deepcopy(rt)
+    return True
+
+
+def a_batch(c):
+    if not _claim(c, "batch", "batch"):
+        return False
+    nn = _nn(c)
+    for cl in c["classes"].values():
+        cl["batch"] = [None] * nn
+    c["classes"]["A"]["batch"] = [[2, 1, 0]] + [None] * (nn - 1)
+    return True
+
+
+def a_ccm(c):
+    if not _claim(c, "ccm", "ccm"):
+        return False
+    _add_B(c, prio=c["classes"].get("B", {}).get("prio", 0))
+    for n in c["nodes"]:
+        n["class_change"] = {"A": {"A": 0.5, "B": 0.5}, "B": {"A": 0.0, "B": 1.0}}
+    return True
+
+
+def _a_cct(prio_change):
+    def f(c):
+        if not _claim(c, "cct", "cct"):
+            return False
+        if prio_change and "B" in c["classes"] and c["classes"]["B"].get("prio", 0) == c["classes"]["A"].get("prio", 0):
+            return False
+        if "B" not in c["classes"]:
+            if prio_change:
+                _add_B(c, prio=0)
+                c["classes"]["A"]["prio"] = 1
+            else:
+                _add_B(c)
+        c["classes"]["A"]["cct"] = {"B": [0.5, 1.5]}
+        return True
+    return f
+
+
+def a_process(c):
+    if not _claim(c, "routing", "process"):
+        return False
+    routes = [[], [1]] if _nn(c) == 1 else [[2], [], [2, 1, 2]]
+    for cl in c["classes"].values():
+        cl["route"] = {"t": "process", "routes": routes}
+    return True
+
+
+def _a_flex(rule, choice):
+    def f(c):
+        if _nn(c) < 2 or not _claim(c, "routing", "flex"):
+            return False
+        nn = _nn(c)
+        others = list(range(1, nn + 1))
+        routes = [[others[1:]], [others, [1]], []]
+        for cl in c["classes"].values():
+            cl["route"] = {"t": "flex", "rule": rule, "choice": choice, "routes": routes}
+        return True
+    return f
+
+
+def _a_net(kind):
+    def f(c):
+        nn = _nn(c)
+        if nn < 2 or not _claim(c, "routing", "net_" + kind):
+            return False
+        dests = list(range(2, nn + 1))
+        if kind == "direct":
+            first = direct(2)
+        elif kind == "cycle":
+            first = {"t": "cycle", "cycle": dests + [-1]}
+        elif kind == "prob":
+            first = {"t": "prob", "dest": dests, "probs": [0.5] + [0.0] * (len(dests) - 1)}
+        elif kind == "jsq":
+            first = {"t": "jsq", "dest": (dests + [1]) if nn == 2 else dests, "tie": "random"}
+        elif kind == "jsq_order":
+            first = {"t": "jsq", "dest": (dests + [1]) if nn == 2 else dests, "tie": "order"}
+        else:
+            first = {"t": "lb", "dest": dests + [1], "tie": "random"}
+        rest = [{"t": "prob", "dest": [1], "probs": [0.5]}] + [leave() for _ in range(nn - 2)]
+        for cl in c["classes"].values():
+            cl["route"] = network(first, *rest)
+        return True
+    return f
+
+
+def _a_cap(k):
+    def f(c):
+        if not _claim(c, "cap", "cap%d" % k):
+            return False
+        for n in c["nodes"]:
+            n["cap"] = k
+        return True
+    return f
+
+
+def a_syscap(c):
+    if not _claim(c, "syscap", "syscap"):
+        return False
+    c["system_capacity"] = 2
+    return True
+
+
+def _a_servers(name, spec, ps=False, thr=None):
+    def f(c):
+        if not _claim(c, "servers", name):
+            return False
+        if "preempt" in c["_kinds"].values() and not (isinstance(spec, int) and spec > 0 and not ps):
+            if not (isinstance(spec, dict) and "sched" in spec):
+                return False
+        for n in c["nodes"]:
+            n["c"] = copy.deepcopy(spec)
+            if ps:
+                n["ps"] = True
+                if thr:
+                    n["ps_threshold"] = thr
+        return True
+    return f
+
+
+def a_srvprio(c):
+    if not _claim(c, "srvprio", "srvprio"):
+        return False
+    for n in c["nodes"]:
+        if not isinstance(n["c"], int):
+            return False
+        n["c"] = max(n["c"], 2)
+        n["server_priority"] = "last"
+    return True
+
+
+def _a_disc(name):
+    def f(c):
+        if not _claim(c, "discipline", name):
+            return False
+        for n in c["nodes"]:
+            n["discipline"] = name
+        return True
+    return f
+
+
+def _a_tracker(name):
+    def f(c):
+        if not _claim(c, "tracker", name):
+            return False
+        nn = _nn(c)
+        if name == "NodePopulationSubset":
+            c["tracker"] = [name, {"observed_nodes": [0] if nn == 1 else [1, 0]}]
+        elif name == "GroupedNodePopulation":
+            c["tracker"] = [name, {"groups": [[0]] if nn == 1 else [[0], list(range(1, nn))]}]
+        else:
+            c["tracker"] = name
+        return True
+    return f
+
+
+def a_digraph(c):
+    if not _claim(c, "detector", "digraph"):
+        return False
+    c["detector"] = "StateDigraph"
+    return True
+
+
+def a_exact(c):
+    if not _claim(c, "exact", "exact"):
+        return False
+    c["exact"] = 12
+    return True
+
+
+SCHED = {"numbers": [1, 0, 2], "ends": [1.5, 2.5, 4.0], "offset": 0.5}
+SLOT = {"slots": [1.0, 1.5, 3.0], "sizes": [1, 2, 1]}
+
+
+def _sched(opt):
+    d = dict(SCHED)
+    d["preempt"] = opt
+    return {"sched": d}
+
+
+def _slot(cap, opt):
+    d = dict(SLOT)
+    d["capacitated"] = cap
+    d["preempt"] = opt
+    return {"slotted": d}
+
+
+ATOMS = [
+    ("class2", a_class2), ("prio", a_prio),
+    ("preempt_resume", _a_preempt("resume")), ("preempt_restart", _a_preempt("restart")),
+    ("preempt_resample", _a_preempt("resample")), ("preempt_reroute", _a_preempt("reroute")),
+    ("baulk", a_baulk), ("renege", a_renege), ("jockey", a_jockey), ("batch", a_batch),
+    ("ccm", a_ccm), ("cct", _a_cct(False)), ("cct_prio", _a_cct(True)),
+    ("process", a_process), ("flex_any_jsq", _a_flex("any", "jsq")), ("flex_all_random", _a_flex("all", "random")),
+    ("flex_any_lb", _a_flex("any", "lb")),
+    ("net_direct", _a_net("direct")), ("net_cycle", _a_net("cycle")), ("net_prob", _a_net("prob")),
+    ("net_jsq", _a_net("jsq")), ("net_jsq_order", _a_net("jsq_order")), ("net_lb", _a_net("lb")),
+    ("cap0", _a_cap(0)), ("cap1", _a_cap(1)), ("syscap", a_syscap),
+    ("c2", _a_servers("c2", 2)), ("c0", _a_servers("c0", 0)), ("cinf", _a_servers("cinf", "inf")),
+    ("sched", _a_servers("sched", _sched(False))), ("sched_resume", _a_servers("sched_resume", _sched("resume"))),
+    ("sched_restart", _a_servers("sched_restart", _sched("restart"))),
+    ("sched_resample", _a_servers("sched_resample", _sched("resample"))),
+    ("sched_reroute", _a_servers("sched_reroute", _sched("reroute"))),
+    ("slotted", _a_servers("slotted", _slot(False, False))), ("slotted_cap", _a_servers("slotted_cap", _slot(True, False))),
+    ("slotted_cap_resume", _a_servers("slotted_cap_resume", _slot(True, "resume"))),
+    ("slotted_cap_restart", _a_servers("slotted_cap_restart", _slot(True, "restart"))),
+    ("slotted_cap_resample", _a_servers("slotted_cap_resample", _slot(True, "resample"))),
+    ("ps_inf", _a_servers("ps_inf", "inf", ps=True)), ("ps_cap2_thr2", _a_servers("ps_cap2_thr2", 2, ps=True, thr=2)),
+    ("srvprio", a_srvprio), ("LIFO", _a_disc("LIFO")), ("SIRO", _a_disc("SIRO")),
+    ("trk_SystemPopulation", _a_tracker("SystemPopulation")), ("trk_NodePopulation", _a_tracker("NodePopulation")),
+    ("trk_NodePopulationSubset", _a_tracker("NodePopulationSubset")),
+    ("trk_GroupedNodePopulation", _a_tracker("GroupedNodePopulation")),
+    ("trk_NodeClassMatrix", _a_tracker("NodeClassMatrix")), ("trk_NaiveBlocking", _a_tracker("NaiveBlocking")),
+    ("trk_MatrixBlocking", _a_tracker("MatrixBlocking")),
+    ("digraph", a_digraph), ("exact", a_exact),
+]
+ATOM = dict(ATOMS)
+
+# Combinations the documentation does not present as supported (not "valid networks" for C14):
+#  - priority pre-emption at nodes that are not ordinary finite-server nodes (handled in the atoms)
+#  - exact arithmetic with PS nodes (Simulation(exact=) replaces every node class by ExactNode)
+#  - customers of a class with no service at a PS node etc. are not generated at all
+
+
+def _incompatible(names, c):
+    s = set(names)
+    if "exact" in s and any(n.startswith("ps_") for n in s):
+        return True
+    if "srvprio" in s and any(n.startswith(("sched", "slotted", "ps_", "cinf", "c0")) for n in s):
+        return True
+    # pre-emptive priorities need ordinary nodes (checked again after all atoms are applied)
+    if any(n.startswith("preempt_") for n in s):
+        for nd in c["nodes"]:
+            if not (_ordinary(nd) or (isinstance(nd["c"], dict) and "sched" in nd["c"])):
+                return True
+    # JSQ/LB and flexible routing read number_in_service / populations of destination nodes: fine everywhere
+    return False
+
+
+def make(topo, names, K, T, D):
+    c = _base(topo, K, T, D)
+    for nm in names:
+        if not ATOM[nm](c):
+            return None
+    if _incompatible(names, c):
+        return None
+    c["name"] = "U-%s[%s]" % (topo, "+".join(names))
+    c["features"] = sorted(names)
+    del c["_kinds"]
+    del c["_topo"]
+    return c
+
+
+def family(tier, entry=None):
+    out = []
+    names = [n for n, _ in ATOMS]
+    if tier == "quick":
+        K, T, D = 3, 6.0, 2
+        plan = [("T1", 1), ("T2", 1), ("T3", 1), ("T1", 2), ("T2", 2)]
+    else:
+        K, T, D = 3, 6.0, 3
+        plan = [("T1", 1), ("T2", 1), ("T3", 1), ("T1", 2), ("T2", 2), ("T3", 2), ("T1", 3)]
+    seen = set()
+    for topo, r in plan:
+        for combo in itertools.combinations(names, r):
+            c = make(topo, combo, K, T, D)
+            if c is None:
+                continue
+            if entry is not None:
+                c["entry"] = list(entry)
+            out.append(c)
+    return out
